@@ -1214,6 +1214,18 @@ impl Core {
 			},
 		)?;
 
+		// Replay may have repaired the active segment, i.e. replaced (rename) or removed the
+		// file that the WAL writer opened in CoreInner::new. Reopen the writer so that new
+		// commits are appended to the file that is in the directory now, not to an unlinked one.
+		{
+			let mut wal_guard = inner.wal.write();
+			*wal_guard = Wal::open_with_min_log_number(
+				&wal_path,
+				min_wal_number,
+				wal::Options::default(),
+			)?;
+		}
+
 		// Set recovered memtable as active (if any)
 		if let Some(memtable) = recovered_memtable {
 			let mut active_memtable = inner.active_memtable.write()?;
@@ -1567,19 +1579,8 @@ impl Tree {
 			*immutable_memtables = ImmutableMemtables::default();
 		}
 
-		// Reopen the WAL from the restored directory
 		let wal_path = self.core.inner.opts.path.join("wal");
 		let manifest_log_number = self.core.inner.level_manifest.read()?.get_log_number();
-
-		{
-			let mut wal_guard = self.core.inner.wal.write();
-			let new_wal = Wal::open_with_min_log_number(
-				&wal_path,
-				manifest_log_number,
-				wal::Options::default(),
-			)?;
-			*wal_guard = new_wal;
-		}
 
 		// Replay any WAL entries that were restored
 		let (wal_seq_num_opt, recovered_memtable) = Core::replay_wal_with_repair(
@@ -1604,6 +1605,18 @@ impl Tree {
 				Ok(())
 			},
 		)?;
+
+		// Reopen the WAL from the restored directory. This happens after the replay because
+		// the replay may repair (replace or remove) the segment the writer is going to append to.
+		{
+			let mut wal_guard = self.core.inner.wal.write();
+			let new_wal = Wal::open_with_min_log_number(
+				&wal_path,
+				manifest_log_number,
+				wal::Options::default(),
+			)?;
+			*wal_guard = new_wal;
+		}
 
 		// Set recovered memtable as active (if any)
 		if let Some(memtable) = recovered_memtable {
